@@ -1,6 +1,6 @@
 """C07 -- per-test leak verdict: leaking tests fail, clean ones pass, blame is correct.
 Scenario:  <mode> <tbd> <pre> <ntests> { <before> <ipre> <setup> <body> <teardown> <ipost> } <tail>
-   list ::= <n> stmt*n      stmt ::= :a id size kind | :f id | :x | :e n | :i
+   list ::= <n> stmt*n      stmt ::= :a id size kind | :f id | :r id size | :x | :e n | :i
    mode 0 = local detector handed to the plugin (blocks through allocMemory/deallocMemory), 1 = fresh global detector (blocks
    through operator new / new [] / cpputest_malloc); tbd = FinalReport(toBeDeletedLeaks); <pre> = statements run before the plugin
    is created (detector disabled); <before> = pre-action of a plugin installed after the leak plugin (runs before the leak
@@ -16,7 +16,7 @@ RULE = ("random programs of 1-30 scripted tests (both ways of reaching the detec
         "spread over setup/body/teardown, the pre-action of a plugin that runs before the leak plugin's, and the pre/post actions of a "
         "plugin that runs inside the checking window (which may also report failures and declare leaks); blocks obtained before the plugin "
         "exists; ~40% of the releases name blocks of earlier tests or of code outside tests; block ids (addresses) are reused after "
-        "release; an own failing check at any position of any phase (skipping the rest of the phase, and the body after a failed setup, "
+        "release; cpputest_realloc of own, earlier and NULL blocks; an own failing check at any position of any phase (skipping the rest of the phase, and the body after a failed setup, "
         "with statements that must not run placed behind it); EXPECT_N_LEAKS with n in {0, L, L-1, L+1, random} at any position (also "
         "behind the failing check, also twice), IGNORE_ALL_LEAKS_IN_TEST (also twice); leaks placed in each of the three phases; "
         "FinalReport(k) with k in {0, outstanding, outstanding+-1}; reports kept below the 4096-byte buffer. "
@@ -40,7 +40,7 @@ def parse(s):
         out = []
         for _ in range(n):
             k = t[pos[0]]
-            ar = {":a": 3, ":f": 1, ":x": 0, ":e": 1, ":i": 0}[k]
+            ar = {":a": 3, ":f": 1, ":r": 2, ":x": 0, ":e": 1, ":i": 0}[k]
             out.append(tuple([k] + [int(x, 16) for x in t[pos[0] + 1:pos[0] + 1 + ar]]))
             pos[0] += 1 + ar
         return out
@@ -82,17 +82,18 @@ def executed(t):
 
 
 def leaked(base, l):
+    """a reallocation is a release followed by an allocation"""
     out = []
     for i, st in enumerate(l):
-        if st[0] == ":a":
-            if not any(x[0] == ":f" and x[1] == st[1] for x in l[i + 1:]):
+        if st[0] in (":a", ":r"):
+            if not any(x[0] in (":f", ":r") and x[1] == st[1] for x in l[i + 1:]):
                 out.append((base, st[2]))
             base += 1
     return out
 
 
 def allocs(l):
-    return sum(1 for st in l if st[0] == ":a")
+    return sum(1 for st in l if st[0] in (":a", ":r"))
 
 
 def declared(ex):
@@ -111,19 +112,25 @@ def trace(tests, tail):
 
 
 def py_valid(pre, tests, tail):
-    live = set()
+    live = {}
     for t in tests:
-        if any(st[0] not in (":a", ":f") for st in t[0]):
+        if any(st[0] not in (":a", ":f", ":r") for st in t[0]):
             return False
-    if any(st[0] not in (":a", ":f") for st in tail + pre):
+    if any(st[0] not in (":a", ":f", ":r") for st in tail + pre):
         return False
     for st in pre + trace(tests, tail):
         if st[0] == ":a":
             if st[1] in live or st[1] >= MAXID or st[2] > 64 or st[3] > 2:
                 return False
-            live.add(st[1])
+            live[st[1]] = st[3]
+        elif st[0] == ":r":
+            if live.get(st[1], 2) != 2 or st[1] >= MAXID or st[2] > 64:
+                return False
+            live[st[1]] = 2
         elif st[0] == ":f":
-            live.discard(st[1])
+            live.pop(st[1], None)
+        elif st[0] == ":e" and st[1] >= 1 << 32:
+            return False
     return True
 
 
@@ -140,6 +147,8 @@ def gen_program(rng, big=False):
     p_fail = rng.choice([0.0, 0.15, 0.3, 0.6])
     p_inner = rng.choice([0.0, 0.0, 0.3, 0.7])   # how often the inner plugin does something
     live = {}                                    # id -> index of the test that allocated it (-1: outside any test, -2: before the plugin)
+    kind = {}                                    # id -> allocator family of the block that had this id last
+    p_realloc = rng.choice([0.0, 0.1, 0.25])
     tests = []
 
     def size():
@@ -150,13 +159,22 @@ def gen_program(rng, big=False):
         mine = [i for i, o in live.items() if o == owner]
         old = [i for i, o in live.items() if o != owner]
         c = rng.random()
+        if rng.random() < p_realloc:
+            # cpputest_realloc of a malloc block of this test / of an earlier test / of a NULL pointer
+            cand = [i for i in live if kind[i] == 2] + [i for i in range(idpool) if i not in live][:2]
+            if cand:
+                i = rng.choice(cand)
+                live[i] = owner
+                kind[i] = 2
+                return (":r", i, size())
         if c < 0.5 or not live:
             free_ids = [i for i in range(idpool) if i not in live]
             if not free_ids:
                 return None
             i = rng.choice(free_ids)
             live[i] = owner
-            return (":a", i, size(), rng.randrange(3))
+            kind[i] = rng.choice([0, 1, 2, 2])
+            return (":a", i, size(), kind[i])
         if rng.random() < p_old and old:
             i = rng.choice(old)
         elif mine:
@@ -174,8 +192,10 @@ def gen_program(rng, big=False):
     def junk():
         """a statement that never runs (behind a failing check): anything, also allocations of ids in use"""
         c = rng.random()
-        if c < 0.4:
+        if c < 0.35:
             return (":a", rng.randrange(idpool), size(), rng.randrange(3))
+        if c < 0.45:
+            return (":r", rng.randrange(idpool), size())
         if c < 0.6:
             return (":f", rng.randrange(idpool))
         if c < 0.8:
@@ -292,11 +312,11 @@ def nontrivial(s):
         return False
     base = 1 + allocs(pre)
     outlives = False
-    owner = {st[1]: -2 for st in pre if st[0] == ":a"}
+    owner = {st[1]: -2 for st in pre if st[0] in (":a", ":r")}
     cross = False
     for ti, t in enumerate(tests):
         for st in t[0]:
-            if st[0] == ":a":
+            if st[0] in (":a", ":r"):
                 owner[st[1]] = -1
             elif st[0] == ":f":
                 owner.pop(st[1], None)
@@ -305,12 +325,12 @@ def nontrivial(s):
         if leaked(base, ex):
             outlives = True
         for st in ex:
-            if st[0] == ":a":
-                owner[st[1]] = ti
-            elif st[0] == ":f":
+            if st[0] in (":f", ":r"):
                 if owner.get(st[1], ti) != ti:
                     cross = True
                 owner.pop(st[1], None)
+            if st[0] in (":a", ":r"):
+                owner[st[1]] = ti
             elif st[0] == ":e":
                 cross = True
         base += allocs(ex)
@@ -340,6 +360,8 @@ def classify(s):
             kinds.add("declared-twice")
         if sum(1 for st in ex if st[0] == ":i") > 1:
             kinds.add("ignore-twice")
+        if any(st[0] == ":r" for st in ex):
+            kinds.add("realloc")
         for p in (SETUP, BODY, TEARDOWN):
             pe = upto_fail(t[p])[0]
             if leaked(0, pe) and not (p == BODY and upto_fail(t[SETUP])[1]):
@@ -403,9 +425,9 @@ def shrink(s):
     for i, t in enumerate(tests):
         for p in range(6):
             for k, st in enumerate(t[p]):
-                if st[0] == ":a" and st[2] > 1:
+                if st[0] in (":a", ":r") and st[2] > 1:
                     t2 = [list(x) for x in t]
-                    t2[p][k] = (":a", st[1], 1, st[3])
+                    t2[p][k] = (st[0], st[1], 1) + tuple(st[3:])
                     cands.append((mode, tbd, pre, tests[:i] + [t2] + tests[i + 1:], tail))
     for c in cands:
         if py_valid(c[2], c[3], c[4]):
